@@ -154,7 +154,7 @@ def run(ctx):
                 "Control fixed point: with constant data the BFS runs to closure. Preload clause: after load_program of programs with every kind of data declaration (loaded once or twice) counters, cycle counter and cache are untouched. Program clause: counters identical in both pipeline modes, "
                 "accesses = loads+stores of the golden run, hits = reference cache on the golden access stream. Non-trivial = history with an "
                 "eviction or rejection / program with both hits and misses.")
-    ctx.assumptions += ["counters are excluded from the state key; their deltas are checked on every transition",
+    ctx.assumptions += ["counter values are excluded from the state key (their deltas are checked on every transition); whether any counted access and any hit has happened yet is part of it",
                         "a rejected access (word-boundary crossing) ends the explored history: the claim excludes it"]
     pens = (0, 1, 5)
     k = 0
